@@ -464,3 +464,43 @@ func init() {
 		MinReach: []string{"end"}, TVVectors: 0, Solver: "z3-new -in",
 	})
 }
+
+func init() {
+	register(&Property{
+		ID: "C12", Dirs: []string{"internal/fastcsv"},
+		Jobs: func(tier string) []Job {
+			var jobs []Job
+			maxL := 4
+			caps := []int{1, 1024}
+			if tier == "thorough" {
+				maxL = 6
+			}
+			for L := 0; L <= maxL; L++ {
+				for _, c := range caps {
+					jobs = append(jobs, Job{Harness: "VX_C12_scan", Params: P("L", itoa(L), "cap", itoa(c), "sched", "any"), MaxPaths: 2000000})
+				}
+			}
+			if tier == "thorough" {
+				for L := 0; L <= 5; L++ {
+					for _, c := range []int{2, 3} {
+						jobs = append(jobs, Job{Harness: "VX_C12_scan", Params: P("L", itoa(L), "cap", itoa(c), "sched", "any"), MaxPaths: 2000000})
+					}
+				}
+				jobs = append(jobs, Job{Harness: "VX_C12_scan", Params: P("L", "7", "cap", "1024", "sched", "whole"), MaxPaths: 2000000})
+			} else {
+				jobs = append(jobs, Job{Harness: "VX_C12_scan", Params: P("L", "5", "cap", "1024", "sched", "whole"), MaxPaths: 2000000})
+				jobs = append(jobs, Job{Harness: "VX_C12_scan", Params: P("L", "3", "cap", "2", "sched", "any"), MaxPaths: 2000000})
+			}
+			return jobs
+		},
+		Bounds: func(tier string) string {
+			if tier == "thorough" {
+				return "scanner: every well-formed document of length <=6 over the class alphabet {delimiter, quote, LF, CR, a, b}, initial buffer capacity 1 and 1024 (2 and 3 up to length 5), every sequence of read sizes and both EOF styles; length 7 with whole-buffer reads"
+			}
+			return "scanner: every well-formed document of length <=4 over the class alphabet {delimiter, quote, LF, CR, a, b}, initial buffer capacity 1 and 1024 (2 at length 3), every sequence of read sizes and both EOF styles; length 5 with whole-buffer reads"
+		},
+		Assume:   []string{"well-formed = accepted by the harness's RFC 4180 recogniser; CR only as part of a CRLF record end (CR inside quoted fields excluded)", "(0,nil) reads excluded (discouraged by io.Reader)", "the reader is constructed directly (as NewReader does) so that tiny buffer capacities exercise reallocation and compaction"},
+		Outside:  []string{"documents longer than the bound; fields crossing the real 1 KiB buffer (exercised instead through capacity 1..3)", "the ReadCSV layer above the scanner (type inference, headers, options): see evidence notes"},
+		MinReach: []string{"end"}, TVVectors: 3,
+	})
+}
